@@ -123,6 +123,16 @@ func (s *Scenario) P(name string, def int) int {
 	return def
 }
 
+// resetBefore: whether transaction i, which reuses the previous transaction's EVM object,
+// is preceded by EVM.Reset (hosts do both: go-ethereum's block processor resets, callers
+// of the entry points on one object do not). Pure function of the scenario.
+func (s *Scenario) resetBefore(i int) bool {
+	if s.P("noreset", 0) == 1 {
+		return false
+	}
+	return ((s.Seed>>7)+uint64(i))%2 == 0
+}
+
 func (s *Scenario) Clone() *Scenario {
 	b, err := json.Marshal(s)
 	if err != nil {
